@@ -4,7 +4,7 @@ use crate::core::{DynScenario, Tier};
 use crate::scen;
 
 pub fn all_scenarios() -> Vec<Box<dyn DynScenario>> {
-    vec![Box::new(scen::c16::C16), Box::new(scen::c14::C14), Box::new(scen::c02::C02), Box::new(scen::c03::C03), Box::new(scen::c05::C05), Box::new(scen::c06::C06), Box::new(scen::c07::C07), Box::new(scen::c08::C08), Box::new(scen::c09::C09)]
+    vec![Box::new(scen::c16::C16), Box::new(scen::c14::C14), Box::new(scen::c02::C02), Box::new(scen::c03::C03), Box::new(scen::c05::C05), Box::new(scen::c06::C06), Box::new(scen::c07::C07), Box::new(scen::c08::C08), Box::new(scen::c09::C09), Box::new(scen::c10::TdScen { mode: 0 }), Box::new(scen::c10::TdScen { mode: 1 })]
 }
 
 pub fn find_scenario(name: &str) -> Option<Box<dyn DynScenario>> {
@@ -124,6 +124,24 @@ pub fn property(id: &str) -> Option<PropSpec> {
             assumptions: vec!["reference XXH64 (C16) for the model bit positions", "after invert no membership promise is carried over (the model member set is cleared)"],
             components_real: vec!["BloomFilter insert / contains / contains_and_insert / union / intersect / invert / reset / bits_used / capacity / is_compatible, BloomFilterBuilder::with_size / with_accuracy, serialize / deserialize"],
             components_stub: vec!["at-least-once network", "ForeignWriter (independent Bloom encoder, dirty marker)", "member set + model bit vector (oracle)"],
+        },
+        "C10" => PropSpec {
+            id: "C10",
+            level: "exploration",
+            parts: vec![p("c10_tdigest", REL, BOTH)],
+            rule: "one run = 1-16 nodes with TDigestMut(k), k 10..=500, a script of value streams (10 shapes: sorted, reversed, uniform, heavy duplicates, clustered, mixed signs, magnitudes 1e-300..1e300, +-0.0 and subnormals, normal-like, heavy tail; NaN / +-inf interleaved and expected to be ignored), flushes along a PRNG-drawn merge DAG (borrowed digest, serialize() image over an exactly-once network with reorder / loss, freeze->unfreeze), framed checkpoints with crash/restart (torn or surviving newest generation, WAL replay), and foreign digests (1..60 sorted positive-weight centroids with heavy first / last / single centroids and min/max beyond the extreme means, in the native f64, native f32, reference asBytes and asSmallBytes encodings). After every merge, restart, foreign contribution, Check and at quiescence: total_weight == number of finite values, min/max exact, rank on a 257-point grid plus centroid means and their neighbours monotone / in [0,1] / 0 below min / 1 above max, quantile on 259 q values monotone / in [min,max] / exact at 0 and 1, rank(quantile(q)) within the digest's own resolution, cdf == rank, pmf == first differences summing to 1 for split lists of length 0, 1, 2, 17, and identical answers from the frozen TDigest. Non-trivial = a wire delivery, restart or foreign contribution happened; distinct = distinct (node count, stream shapes, flush forms, fault kinds) keys.",
+            assumptions: vec!["monotonicity is checked with an absolute tolerance of 1e-12 on ranks and 1e-12*max(|min|,|max|) on quantiles (floating-point interpolation)", "the resolution bound uses the centroid list read from the digest's own serialize() by the independent decoder"],
+            components_real: vec!["TDigestMut update / merge / compress / rank / quantile / cdf / pmf / min_value / max_value / total_weight / freeze, TDigest rank / quantile / cdf / unfreeze, serialize / deserialize (native f64, f32, reference-implementation forms)"],
+            components_stub: vec!["exactly-once network", "framed checkpoint store + WAL", "ForeignWriter (independent t-digest encoder)", "exact multiset model"],
+        },
+        "C15" => PropSpec {
+            id: "C15",
+            level: "exploration",
+            parts: vec![p("c15_tdigest", REL, BOTH)],
+            rule: "same cluster and scripts as C10 (streams up to 3*10^4 values per burst in quick, 3*10^5 in thorough; merge DAGs of up to 16 digests; restarts; foreign digests), with the size/accuracy oracle set: at every power-of-two prefix of a node's stream, after every merge / restart / Check and at quiescence the centroid list parsed from serialize() has <= 2k+30 centroids (image <= 16(2k+30)+32 bytes), weights sum to total_weight, means are sorted and inside [min,max]; for nodes whose whole ancestry is exact data, rank(v) on the 257-point grid is within C*q(1-q)Z/2k + 1.5/n of the interval of admissible true ranks (C frozen after calibration, see DESIGN.md), and exact to one sample at the extremes. Non-trivial / distinct as in C10.",
+            assumptions: vec!["the accuracy constant C was calibrated once on the unchanged tree (3x the largest observed ratio) and is frozen in sim/src/scen/c10.rs", "nodes with a foreign digest in their ancestry are exempt from the exact-data clause (their data is not known), not from size / conservation"],
+            components_real: vec!["TDigestMut update / merge / compress / rank / serialize / deserialize"],
+            components_stub: vec!["exactly-once network", "framed checkpoint store + WAL", "ForeignWriter", "sorted exact data (oracle)"],
         },
         _ => return None,
     })
